@@ -142,18 +142,26 @@ struct ModelDump {
             XSSimpleTypeDefinitionList* m = s->getMemberTypes();
             for (XMLSize_t i = 0; m && i < m->size(); i++) typeRef("member", m->elementAt(i));
         }
+        // facet lists are filled from a hash table of facets: their order is not part of the model -> sorted
+        std::vector<std::string> rows;
         XSFacetList* fl = s->getFacets();
         for (XMLSize_t i = 0; fl && i < fl->size(); i++) {
             XSFacet* f = fl->elementAt(i);
+            std::string save = cur; cur.clear();
             ln("facet kind=" + std::to_string((int)f->getFacetKind()) + " value=" + escN(f->getLexicalFacetValue()) + " fixed=" + (f->isFixed() ? "1" : "0"));
             depth++; annotation(f->getAnnotation()); depth--;
+            rows.push_back(cur); cur = save;
         }
         XSMultiValueFacetList* ml = s->getMultiValueFacets();
         for (XMLSize_t i = 0; ml && i < ml->size(); i++) {
             XSMultiValueFacet* f = ml->elementAt(i);
+            std::string save = cur; cur.clear();
             ln("mvfacet kind=" + std::to_string((int)f->getFacetKind()) + " values=" + strList(f->getLexicalFacetValues()) + " fixed=" + (f->isFixed() ? "1" : "0"));
             depth++; annotations(f->getAnnotations()); depth--;
+            rows.push_back(cur); cur = save;
         }
+        std::sort(rows.begin(), rows.end());
+        for (size_t i = 0; i < rows.size(); i++) cur += rows[i];
         ln("enumeration " + strList(s->getLexicalEnumeration()));
         ln("pattern " + strList(s->getLexicalPattern()));
         annotations(s->getAnnotations());
@@ -383,7 +391,10 @@ static std::string hPool(const Req& r) {
             for (long j = 0; j < ni; j++) {
                 Req pr;
                 pr["api"] = get(r, "api", "dom");
-                pr["feat"] = get(r, "feat", "ns=1;schema=1;val=1;usecached=1;psvi=1");
+                pr["feat"] = get(r, "feat", "ns=1;schema=1;val=1;usecached=1");
+                // PSVI type names only on the first parse against each pool: a later PSVI parse on the same pool crashes on the unchanged
+                // tree even for the ORIGINAL pool (IGXMLScanner2.cpp:655, null XSSimpleTypeDefinition) -- not a matter of this property
+                if (j == 0 && geti(r, "psvifirst", 0)) pr["feat"] += ";psvi=1";
                 pr["doc"] = r.find("i" + std::to_string(j) + ".doc")->second;
                 pr["sysid"] = "mem:/inst" + std::to_string(j) + ".xml";
                 for (Req::const_iterator it = r.begin(); it != r.end(); ++it) if (it->first.compare(0, 4, "ent:") == 0) pr[it->first] = it->second;
